@@ -554,7 +554,7 @@ def check_decoding(chk, tus, it, vts):
         try:
             paths = it.explore(setup)
         except emit.ScriptMismatch as e:
-            chk.fail('R07.5', '%s.const:reader' % tname, str(e), site)
+            emit.decide_mismatch(chk, 'R07.5', '%s.const:reader' % tname, e, site, '%s.const: ' % tname)
             continue
         good = [p for p in paths if is_sym(p.ret) or p.ret]
         p = paths[0]
